@@ -36,8 +36,8 @@ fn mc_one(layouts: &LayoutSet, rng: &mut StdRng, b: &Value, rep: &mut Report) {
     for v in &tried {
         let tcp = *v != "bedrock";
         if *v == result {
-            let l = pick(rng, layouts, v, &|_| true);
-            let bb = proto::build(rng, l);
+            let cands: Vec<&Value> = layouts.all.iter().filter(|l| l["layout"]["entry"] == *v).collect();
+            let bb = proto::build_fitting(rng, &cands);
             conns.push(proto::script_of(&bb).conns.remove(0));
             answer = Some(bb);
         } else {
@@ -145,8 +145,8 @@ pub fn replay_unreal2(layouts: &LayoutSet, lines: &[Value], seed: u64, reps: usi
 }
 
 fn u2_one(layouts: &LayoutSet, rng: &mut StdRng, b: &Value, only: &[&'static str], rep: &mut Report) {
-    let l = pick(rng, layouts, "unreal2", &|s| s.get("datagrams").is_some());
-    let bb = proto::build(rng, l);
+    let cands: Vec<&Value> = layouts.all.iter().filter(|l| l["layout"]["entry"] == "unreal2" && l["shape"].get("datagrams").is_some()).collect();
+    let bb = proto::build_fitting(rng, &cands);
     let sec_idx = |s: &str| match s {
         "info" => 0,
         "rules" => 1,
@@ -170,7 +170,7 @@ fn u2_one(layouts: &LayoutSet, rng: &mut StdRng, b: &Value, only: &[&'static str
     let r = cfg["r"].as_u64().unwrap() as usize;
     let rec = run_call(&script, DEFAULT_MAX_OPS, || unreal2::query(&addr(7777), &g, timeouts(r)));
     rep.evaluations += 1;
-    let case = json!({"behaviour": b, "script": script, "shape": l["shape"]});
+    let case = json!({"behaviour": b, "script": script});
     let mut fail = |prop: &'static str, sig: String, detail: Value| {
         if only.is_empty() || only.contains(&prop) {
             rep.violation(prop, &sig, json!({"kind":"unreal2-behaviour","case":case,"detail":detail,
